@@ -166,13 +166,13 @@ _old_vcs = vcs
 
 def vcs(tier):
     out = _old_vcs(tier)
-    out += [Base(2), Queries()]
+    out += [Base(2), Base(4), Queries()]
     if tier == "thorough": out += [Base(3)]
     return out
 
 
-BOUNDS = {"quick": {"addresses_with_state": N, "initial_balances": 2, "amounts": "full u128, symbolic"},
-          "thorough": {"addresses_with_state": N, "initial_balances": 3, "amounts": "full u128, symbolic"}}
+BOUNDS = {"quick": {"addresses_with_state": N, "initial_balances": 4, "amounts": "full u128, symbolic"},
+          "thorough": {"addresses_with_state": N, "initial_balances": 4, "amounts": "full u128, symbolic"}}
 OUTSIDE = ("pre-states with more than %d accounts holding balances/allowances besides arbitrary fresh addresses (closed world); "
            "initial_balances longer than the bound; histories are covered by induction: each VC starts from an arbitrary state "
            "satisfying the invariant" % N)
